@@ -131,6 +131,12 @@ func runRendezvous(_ *testing.T, c rvCase) error {
 			if peer != nil {
 				peer.Close()
 			}
+			// every event the attempt emitted must be printable (the client binary's listener logs each one)
+			rec.mu.Lock()
+			for _, e := range rec.evs {
+				_ = e.String()
+			}
+			rec.mu.Unlock()
 			continue
 		}
 		if err == nil || peer != nil {
@@ -174,6 +180,8 @@ func init() { vstat.Register(uRv, runRendezvous) }
 
 var iceConfigs = [][]string{nil, {}, {""}, {" "}, {"garbage"}, {"stun:"}, {"http://example.com"}, {"turn:127.0.0.1:3478"}, {"stun:127.0.0.1:9"}, {"", "stun:127.0.0.1:9"}, {"stun:[::1]:9"}, {"stuns:127.0.0.1:9?transport=udp"}}
 
+var slowRv int // 10-second outcomes generated so far in this process
+
 func TestVerifC15Rendezvous(t *testing.T) {
 	defer uRv.Flush()
 	start := time.Now()
@@ -182,15 +190,20 @@ func TestVerifC15Rendezvous(t *testing.T) {
 			return // time budget of this real-time unit used up: the remaining iterations are empty (not counted as cases)
 		}
 		outcomes := []string{"transport-error", "empty", "nonjson", "error-json", "timeout-json", "answer-wrong-type", "answer-not-json", "answer-type-confusion", "answer-bad-sdp", "answer-parser-panic-sdp", "answer-is-offer", "both-empty"}
-		if vstat.Thorough() {
-			outcomes = append(outcomes, "valid-answer-never-connects") // costs the client's 10 s data channel time-out
+		if vstat.Thorough() || slowRv == 0 {
+			// costs the client's 10 s data channel time-out: thorough tier, and once per process in the quick tier
+			outcomes = append(outcomes, "valid-answer-never-connects")
 		}
 		c := rvCase{
 			ICE:     rapid.SampledFrom(iceConfigs).Draw(rt, "ice"),
 			Outcome: rapid.SampledFrom(outcomes).Draw(rt, "outcome"),
 			Twice:   rapid.Bool().Draw(rt, "twice"),
 		}
+		if !vstat.Thorough() && vstat.Shard() == 0 && slowRv == 0 {
+			c.Outcome = "valid-answer-never-connects" // quick tier: shard 0 always runs it once
+		}
 		if c.Outcome == "valid-answer-never-connects" {
+			slowRv++
 			c.ICE, c.Twice = nil, false // needs a usable configuration to get as far as the answer
 		}
 		uRv.Journal(c)
